@@ -649,7 +649,18 @@ def check_elementwise(chk, v, name, spec):
             problems.append("element type %s is not a 32-bit wrapping integer" % elt)
     pp = sym.sym(ints[0]["n"]) if ints else None
     nconf = 0
+    # statements selected by tests on the integer multiplier (shortcuts for 0 and +-1): every alternative is decided for the
+    # multipliers that select it -- the composition below is repeated with p = -3 .. 3 substituted (bounded in p: the general
+    # alternative is exercised with |p| = 2, 3, where it is symbolic in everything but p)
+    pvals = (-3, -2, -1, 0, 1, 2, 3) if pp is not None and any(sym.contains(g_, pp) for s_ in stores for g_ in s_["guards"]) else (None,)
+    stores_all, pp_sym = stores, pp
     if not problems:
+      for pv in pvals:
+        if pv is not None:
+            sub_p = {pp_sym: I(pv)}
+            stores = [dict(s_, guards=[sym.fold(sym.subst(g_, sub_p)) for g_ in s_["guards"]], val=sym.fold(sym.subst(s_["val"], sub_p)) if isinstance(s_["val"], tuple) else s_["val"])
+                      for s_ in stores_all]
+            pp = I(pv)
         for part in _partitions(pnames):
             cls = {n: min(c) for c in part for n in c}
             if any(len(fs) == 2 and len({cls[x] for x in fs}) == 1 for fs in forbidden):
@@ -659,6 +670,8 @@ def check_elementwise(chk, v, name, spec):
             state = dict(init)
 
             def truth(g):
+                if sym.const_value(g) is not None:
+                    return bool(sym.const_value(g))
                 if g[0] == "un" and g[1] == "!":
                     t_ = truth(g[2])
                     return None if t_ is None else (not t_)
@@ -700,6 +713,8 @@ def check_elementwise(chk, v, name, spec):
             expect = want if op == "=" else sym.add(r0, want) if op == "+=" else sym.sub(r0, want)
             got = state[cls[res]]
             conf = ", ".join("==".join(c) for c in part if len(c) > 1) or "all arguments distinct"
+            if pv is not None:
+                conf = "%s = %d, %s" % (sym.show(pp_sym), pv, conf)
             if bad:
                 problems.append("with %s: %s" % (conf, bad))
             elif got != expect:
